@@ -69,7 +69,14 @@ func MultiConn(a Args) {
 			lines = append(lines, map[string]interface{}{"ev": "reset", "cfg": a.Cfg.String(), "proto": a.Proto, "twotier": a.Cfg.Orca != "l1only",
 				"trace": c, "seed": a.Seed, "conns": a.Workers})
 			nextBlock := 1
-			blk := func() []int { b := []int{nextBlock}; nextBlock++; if nextBlock > 150 { nextBlock = 1 }; return b }
+			blk := func() []int {
+				b := []int{nextBlock}
+				nextBlock++
+				if nextBlock > 150 {
+					nextBlock = 1
+				}
+				return b
+			}
 			for i := 0; i < a.Len; i++ {
 				port := ports[rng.Intn(len(ports))]
 				k := keys[rng.Intn(len(keys))]
